@@ -114,3 +114,8 @@ pub fn deviation(spec: &SysSpec) -> String {
     }
     format!("{}:{}", name, if d.is_empty() { "default".to_string() } else { d.join("+") })
 }
+
+/// number of worker processes (PV_THREADS overrides the number of cores)
+pub fn n_threads() -> usize {
+    std::env::var("PV_THREADS").ok().and_then(|s| s.parse().ok()).unwrap_or_else(|| std::thread::available_parallelism().map(|n| n.get()).unwrap_or(8))
+}
